@@ -413,6 +413,51 @@ impl Carrier for scylla_cql_core::value::CqlValue {
     }
 }
 
+
+// secrecy 0.10 has dedicated impls for SecretString (= SecretBox<str>) and SecretSlice<S> (= SecretBox<[S]>)
+impl Carrier for secrecy::SecretString {
+    fn name() -> String {
+        "secrecy_10::SecretString".to_string()
+    }
+    fn home_types() -> Vec<Type> {
+        String::home_types()
+    }
+    fn rel_ser(t: &Type) -> Rel {
+        String::rel_ser(t)
+    }
+    fn from_ref(t: &Type, v: &Value) -> Option<Self> {
+        String::from_ref(t, v).map(secrecy::SecretString::from)
+    }
+    fn to_ref(&self, t: &Type) -> Value {
+        use secrecy::ExposeSecret;
+        str_value(t, self.expose_secret())
+    }
+    fn witness(_t: &Type) -> Self {
+        secrecy::SecretString::from("w".to_string())
+    }
+}
+impl Carrier for secrecy::SecretSlice<i32> {
+    fn name() -> String {
+        "secrecy_10::SecretSlice<i32>".to_string()
+    }
+    fn home_types() -> Vec<Type> {
+        <Vec<i32>>::home_types()
+    }
+    fn rel_ser(t: &Type) -> Rel {
+        <Vec<i32>>::rel_ser(t)
+    }
+    fn from_ref(t: &Type, v: &Value) -> Option<Self> {
+        <Vec<i32>>::from_ref(t, v).map(secrecy::SecretSlice::from)
+    }
+    fn to_ref(&self, t: &Type) -> Value {
+        use secrecy::ExposeSecret;
+        seq_to_ref(t, self.expose_secret().iter(), false)
+    }
+    fn witness(t: &Type) -> Self {
+        secrecy::SecretSlice::from(<Vec<i32>>::witness(t))
+    }
+}
+
 // ---- generic wrappers
 macro_rules! transparent {
     ($outer:ident, $fmt:expr, |$x:ident| $wrap:expr, |$s:ident| $get:expr) => {
@@ -1217,6 +1262,7 @@ pub fn table() -> Vec<Entry> {
         num_bigint::BigInt, num_bigint_03::BigInt, bigdecimal::BigDecimal);
     reg_ser!(v; [u8; 0], [u8; 1], [u8; 4], [u8; 128], Option<[u8; 1]>, Vec<[u8; 1]>);
     reg_full!(v; secrecy_08::Secret<String>, secrecy_08::Secret<i32>, secrecy_08::Secret<Vec<u8>>, Option<secrecy_08::Secret<String>>, Vec<secrecy_08::Secret<i32>>,
+        secrecy::SecretString, Option<secrecy::SecretString>, Vec<secrecy::SecretString>, secrecy::SecretSlice<i32>, Option<secrecy::SecretSlice<i32>>,
         secrecy::SecretBox<String>, secrecy::SecretBox<i64>, secrecy::SecretBox<Vec<u8>>, Option<secrecy::SecretBox<String>>, Vec<secrecy::SecretBox<i64>>);
     v
 }
